@@ -191,9 +191,10 @@ class Check:
         if self.broken:
             for b in self.broken:
                 print(f'CHECKER-BROKEN {self.pid}: {b}')
+        if nviol:
+            code = 1          # an established violation (each has its own replay / named obligation) stands even if another part of the check broke
+        elif self.broken:
             code = 3
-        elif nviol:
-            code = 1
         elif self.undecided:
             for u in self.undecided[:10]:
                 print(f'UNDECIDED {self.pid}: {u["name"]}: {u["why"]}')
